@@ -7,7 +7,7 @@
 (* This module validates every record against Print.tla: the token sequence *)
 (* must be a member of PrintSet(T) (InPrintSet: it is the print of its own  *)
 (* parse tree and that tree is an ordering of T), must parse to T, and T    *)
-(* itself must satisfy the laws.  Rows are fanned out as in MC_Types; a     *)
+(* itself must satisfy the laws (when it has at most 24 orderings).  Rows are fanned out as in MC_Types; a     *)
 (* rejected record is reported with PrintT(<<"REJECT", index>>) and does    *)
 (* not stop the run, the POSTCONDITION checks that every record was seen.   *)
 (***************************************************************************)
@@ -36,7 +36,7 @@ Accept(i) ==
       p == ParseType(toks)
   IN /\ InPrintSet(toks, T)
      /\ ~IsNone(p) /\ p.t = T /\ p.rest = Len(toks) + 1
-     /\ RoundTrip(T) /\ ParensNeeded(T)
+     /\ (OrderingCount(T) <= 24 => RoundTrip(T) /\ ParensNeeded(T))
 
 TraceInv == row > 0 => (Accept(row) \/ PrintT(<<"REJECT", row>>))
 
